@@ -9,6 +9,7 @@ import Compress.Proofs.BzImplCounters
 import Compress.Proofs.FlateApi
 import Compress.Proofs.BzReaderApi
 import Compress.Proofs.FlateApiRefine
+import Compress.Proofs.MetaRApiExact
 
 namespace Compress.Props.C11
 open Compress Compress.Prefix Compress.Proofs.PrefixTables Compress.Proofs.BitIOExact
@@ -129,5 +130,44 @@ theorem C11_flate_api_input_offset (r0 : Reader) (src : Src) (sched : List Nat)
   obtain ⟨r', h1, _, _, _, h5⟩ := Compress.Proofs.FlateApi.reset_drive_spec r0 src sched hs
   rw [hv] at h1
   exact ⟨r', _, h1, h5 n hv⟩
+/-! ### meta.Reader (API-level model `Meta/ReaderApi.lean`) -/
+
+section metaReader
+open Compress.Meta Compress.Proofs.MetaRApi
+
+/-- **meta.Reader consumes exactly the stream it decodes.** For every source (any bytes, a
+    fault at any position or none; `src.avail` = the bytes the source hands out) and every Read
+    schedule (any buffer lengths, zero included): OutputOffset is the number of bytes delivered
+    so far; and if the run has reached io.EOF then the codec (`Codec.decode`) accepts the
+    input, InputOffset is exactly its `consumed` (the bytes of the decoded blocks), NumBlocks
+    its block count, OutputOffset the length of its payload, and the input the reader has not
+    consumed is exactly what follows those bytes: nothing after the stream was read. -/
+theorem C11_meta_reader_exact (src : Src) (ns : List Nat) :
+    let r := MR.run (newMR src) (ns.map .read)
+    r.1.outOff = (dataOf r.2).length ∧
+    (r.1.err = some .eof → ∃ d, decode src.avail = .ok d ∧ r.1.inOff = d.consumed ∧ r.1.nblk = d.blocks ∧
+      r.1.rest = (Bits.ofBytes src.avail).drop (8 * d.consumed) ∧ r.1.outOff = d.payload.length) :=
+  Compress.Proofs.MetaRApi.exact src ns
+
+/-- **OutputOffset after every call**, from any state: a Read adds exactly the number of bytes
+    it returns (at most the buffer length), Close leaves it, Reset zeroes it; hence after any
+    op sequence without Reset it has grown by the total delivered. -/
+theorem C11_meta_reader_output_offset (s : MR) :
+    (∀ n, (s.read n).1.outOff = s.outOff + (s.read n).2.1.length ∧ (s.read n).2.1.length ≤ n) ∧
+    s.close.1.outOff = s.outOff ∧ (∀ src, (s.reset src).outOff = 0) ∧
+    (∀ ops, noReset ops → (MR.run s ops).1.outOff = s.outOff + (dataOf (MR.run s ops).2).length) :=
+  ⟨fun n => ⟨read_outOff s n, read_len s n⟩, close_outOff s, fun _ => rfl, fun ops h => run_outOff ops s h⟩
+
+-- non-vacuity: a FinalMeta block with payload "abc" followed by two more bytes, read with 1-byte and
+-- zero-length Reads: io.EOF after the payload, InputOffset = 17 = the block, the two bytes untouched
+set_option maxRecDepth 100000 in
+example :
+    let r := MR.run (newMR { data := [4, 192, 134, 5, 0, 32, 41, 100, 20, 161, 20, 234, 255, 235, 218, 123, 251, 0xaa, 0xbb] })
+      [.read 1, .read 0, .read 1, .read 1, .read 1]
+    r.2 = [.read [0x61] none, .read [] none, .read [0x62] none, .read [0x63] none, .read [] (some .eof)] ∧
+    r.1.inOff = 17 ∧ r.1.outOff = 3 ∧ r.1.nblk = 1 ∧ r.1.finalMode = .fmeta ∧ r.1.rest = Bits.ofBytes [0xaa, 0xbb] := by
+  decide
+
+end metaReader
 
 end Compress.Props.C11
